@@ -259,6 +259,17 @@ func (e *Engine) invariantsOf(nt *types.Named) []*Invariant {
 	return pc.Invs[nt.Obj().Name()]
 }
 
+func (e *Engine) reliesOf(nt *types.Named) []*Invariant {
+	if nt == nil || nt.Obj().Pkg() == nil {
+		return nil
+	}
+	pc := e.contracts[nt.Obj().Pkg().Path()]
+	if pc == nil {
+		return nil
+	}
+	return pc.Relies[nt.Obj().Name()]
+}
+
 func (e *Engine) invariantByName(nt *types.Named, name string) *Invariant {
 	for _, inv := range e.invariantsOf(nt) {
 		if inv.Name == name {
